@@ -1282,6 +1282,10 @@ def m_concat(I, e, args, kws):
         keep(out, j, "deg", "litfactor")
     # shape: concatenation of n copies of a 1-D vector of extent d -> n⊗d (sample-major)
     ax = axis_arg(args, kws, 1, 0)
+    if len(vals) >= 2 and ax == 0 and name in ("concatenate", "hstack", "append") and vals[0].tag("prefix_slice") is not None \
+            and not any(v.tag("suffix_slice") for v in vals[1:]):
+        # np.concatenate([x[:k], <fill>]): the leading rows of x kept, its tail rebuilt explicitly from something else
+        out.tags["tail_filled"] = "concatenate([x[:k], …])"
     if vals and ax == 0 and name in ("concatenate", "vstack") and all(v.flat().tag("simplex_rows") for v in vals):
         out.tags["simplex_rows"] = True          # blocks of probability vectors stacked row-wise are rows of probability vectors
     if name == "concatenate" and len(parts) >= 1 and ax == 0:
